@@ -4,7 +4,7 @@
    the mixture models are the generated Gen_MixtureModels.v.  [ref] ranges over the three reference
    phases and [ph] over the three phases, so every statement covers all nine pairs. *)
 From V Require Import Common.Num C07.Model C07.Gen_FreeEnergy C07.Gen_InitEnergies C07.Gen_MixtureModels C07.Gen_InitData
-     C07.InstR C07.ProofsPure C07.ProofsMix C07.Proofs.
+     C07.InstR C07.ProofsPure C07.ProofsMix C07.Proofs C07.Gen_Rewire C07.Rewire C07.ProofsRewire.
 From Coq Require Import Reals List.
 From Coquelicot Require Import Coquelicot.
 Import ListNotations.
@@ -198,9 +198,13 @@ Theorem C07_single_phase_TP_model : forall Rg (models : list (option R -> option
 Proof. exact SP_TP_model_sum. Qed.
 Print Assumptions C07_single_phase_TP_model.
 
-(* mixture entropy: the FULL statement of the property ([mix_entropy_statement], Proofs.v) is
-     S_mix - sum n_i S_i = - R sum n_i ln x_i.
-   The generated IdealEntropyModel (ideal_mixture_model.py:111) adds + n ln x without R, so the
+(* mixture entropy: the FULL statement of the property,  S_mix - sum n_i S_i = - R sum n_i ln x_i : *)
+Definition mix_entropy_statement (Rg : R) : Prop :=
+  forall (models : list (phase -> option R -> option R -> pyv R)) Sex ss ph m T P,
+    models_give (fun f => f ph T P) models ss -> length m = length ss -> all_nonneg m -> 0 < sumR m ->
+    exists s, Mixture_S ROps false (IdealEntropyModel_call (mixenvR Rg) models) Sex ph (sparse_items ROps m) T P = Ok (Some s) /\
+              s - dotR m ss = - Rg * mixterm (sumR m) m.
+(* The generated IdealEntropyModel (ideal_mixture_model.py:111) adds + n ln x without R, so the
    statement is refuted for every R > 0 (witness: two components with n = [1; 1]) ... *)
 Theorem C07_mix_entropy_refuted : forall Rg, 0 < Rg -> ~ mix_entropy_statement Rg.
 Proof. exact mix_entropy_refuted_lemma. Qed.
@@ -214,8 +218,17 @@ Theorem C07_mix_entropy_partial : forall Rg (models : list (phase -> option R ->
 Proof. exact mix_entropy_partial_lemma. Qed.
 Print Assumptions C07_mix_entropy_partial.
 
-(* "mixing at equal T and P never lowers S" ([mixing_never_lowers_S_statement]) is refuted
-   (witness: [1; 0] mixed with [0; 1]) ... *)
+(* "mixing at equal T and P never lowers S", the FULL statement: *)
+Definition mixing_never_lowers_S_statement (Rg : R) : Prop :=
+  forall (models : list (phase -> option R -> option R -> pyv R)) Sex ss ph m m' T P,
+    models_give (fun f => f ph T P) models ss -> length m = length ss -> length m' = length ss ->
+    all_nonneg m -> all_nonneg m' -> 0 < sumR m -> 0 < sumR m' ->
+    exists s s' s2,
+      Mixture_S ROps false (IdealEntropyModel_call (mixenvR Rg) models) Sex ph (sparse_items ROps m) T P = Ok (Some s) /\
+      Mixture_S ROps false (IdealEntropyModel_call (mixenvR Rg) models) Sex ph (sparse_items ROps m') T P = Ok (Some s') /\
+      Mixture_S ROps false (IdealEntropyModel_call (mixenvR Rg) models) Sex ph (sparse_items ROps (vaddR m m')) T P = Ok (Some s2) /\
+      s + s' <= s2.
+(* it is refuted (witness: [1; 0] mixed with [0; 1]) ... *)
 Theorem C07_mixing_never_lowers_S_refuted : forall Rg, ~ mixing_never_lowers_S_statement Rg.
 Proof. exact mixing_never_lowers_S_refuted_lemma. Qed.
 Print Assumptions C07_mixing_never_lowers_S_refuted.
@@ -238,6 +251,28 @@ Theorem C07_ideal_mixing_never_lowers_S : forall Rg ss m m', 0 <= Rg ->
   S_ideal Rg ss m + S_ideal Rg ss m' <= S_ideal Rg ss (vaddR m m').
 Proof. exact ideal_mixing_never_lowers_S_lemma. Qed.
 Print Assumptions C07_ideal_mixing_never_lowers_S.
+
+(* ---------------- when the wiring is rebuilt ---------------- *)
+
+(* After ANY history of reset_free_energies / copy / in-place change of a handle followed by reset /
+   copy_models_from(names) / at_state / phase_ref, Tm, Tb, Hfus, Sfus setters, starting from chemicals that
+   were wired from their own fields at distinct handle addresses, EVERY chemical in the store still has
+   H / S functors that (i) refer to its own heat-capacity handle objects and (ii) were built by the generated
+   wiring from exactly its own current inputs -- where the guards under which each method rebuilds are the
+   ones generated from _chemical.py (Gen_Rewire.v).  No axioms. *)
+Theorem C07_wiring_follows_own_inputs :
+  forall (Cc Hc Sc : Type) (d0 : Cc) (merge_cn : cnkind -> cnkind -> Cc -> Cc -> Cc)
+         (s : state Cc Hc Sc) (ops : list (op Cc Hc Sc)) (c : chem Cc Hc Sc),
+    inv Cc Hc Sc d0 s -> In c (snd (run Cc Hc Sc d0 merge_cn s ops)) ->
+    w_cn _ _ _ c = c_cn _ _ _ c /\
+    w_in _ _ _ c = current Cc Hc Sc d0 (fst (run Cc Hc Sc d0 merge_cn s ops)) c.
+Proof. exact wiring_is_own. Qed.
+Print Assumptions C07_wiring_follows_own_inputs.
+
+(* the invariant holds for a newly constructed chemical *)
+Example C07_inv_satisfiable : forall (Cc Hc Sc : Type) (d0 : Cc) h k p sc hv addr, (addr < length h)%nat ->
+  inv Cc Hc Sc d0 (h, fresh Cc Hc Sc d0 h k p sc hv addr :: nil).
+Proof. exact inv_fresh1. Qed.
 
 (* non-vacuity: the hypotheses are satisfiable *)
 Example C07_chem_ok_satisfiable : chem_ok (fun _ _ => 75) (fun _ => 40650) 298 101325 273 373.
